@@ -208,7 +208,7 @@ class Circle(Shape2D):
         return Circle(self.radius, self.centroid)
 
     @property
-    def maximal_bounding_circle(self):
+    def maximal_bounded_circle(self):
         """:class:`~.Circle`: Get the largest bounded circle."""
         return Circle(self.radius, self.centroid)
 
